@@ -277,9 +277,27 @@ Theorem C18_mem_create_then_found : forall D st s c,
   let st1 := fst (mem_step D gen_mem_put_copies gen_mem_get_copies st (MCreate s)) in
   snd (mem_step D gen_mem_put_copies gen_mem_get_copies st (MCreate s)) = MRKey (HkM D c) /\
   snd (mem_step D gen_mem_put_copies gen_mem_get_copies st1 (MHas (HkM D c))) = MRBool true /\
-  exists c', snd (mem_step D gen_mem_put_copies gen_mem_get_copies st1 (MOpen (HkM D c))) = MRBytes c'.
+  snd (mem_step D gen_mem_put_copies gen_mem_get_copies st1 (MOpen (HkM D c))) = MRBytes c.
 Proof. exact mem_create_then_has. Qed.
 Print Assumptions C18_mem_create_then_found.
+
+(** The JSON helpers (objects/json.go): CreateJSON then ReadJSON gives the
+    value back, and whatever ReadJSON decodes was decoded from bytes that
+    hash to the key.  [enc] / [dec] stand for encoding/json. *)
+Theorem C18_json_roundtrip : forall D V (enc : V -> option bytes) (dec : bytes -> option V) st v bs,
+  enc v = Some bs -> dec bs = Some v ->
+  snd (create_json D gen_mem_put_copies gen_mem_get_copies V enc st v) = MRKey (HkM D bs) /\
+  read_json D gen_mem_put_copies gen_mem_get_copies V dec
+            (fst (create_json D gen_mem_put_copies gen_mem_get_copies V enc st v)) (HkM D bs) = JVal V v.
+Proof. exact (fun D V => @mem_json_roundtrip D V). Qed.
+Print Assumptions C18_json_roundtrip.
+
+Theorem C18_read_json_from_matching_bytes : forall D V (dec : bytes -> option V) st k v,
+  mem_ok D st ->
+  read_json D gen_mem_put_copies gen_mem_get_copies V dec st k = JVal V v ->
+  exists c, HkM D c = k /\ dec c = Some v.
+Proof. exact (fun D V => @mem_read_json_from_matching_bytes D V). Qed.
+Print Assumptions C18_read_json_from_matching_bytes.
 
 (** ** CheckReader
 
